@@ -1688,7 +1688,12 @@ pub async fn reload_config(client_server_map: ClientServerMap) -> Result<bool, E
 
     if old_config != new_config {
         info!("Config changed, reloading");
-        ConnectionPool::from_config(client_server_map).await?;
+        if let Err(err) = ConnectionPool::from_config(client_server_map).await {
+            // The pools are still the ones of the previous configuration: put it back,
+            // so that the next reload sees the change again and retries.
+            CONFIG.store(Arc::new(old_config));
+            return Err(err);
+        }
         Ok(true)
     } else {
         Ok(false)
